@@ -71,6 +71,12 @@ structure ArrayRules where
   uniqueItems : Option Bool := none
   deriving DecidableEq, Repr, Inhabited
 
+/-- `schema.MapField.Rules` -/
+structure MapRules where
+  minPairs : Option Nat := none
+  maxPairs : Option Nat := none
+  deriving DecidableEq, Repr, Inhabited
+
 inductive KeyFormat where
   | informal
   | custom (pattern : String)
@@ -131,15 +137,22 @@ inductive Schema where
 inductive FieldSchema where
   | single (s : Schema)
   | array (items : Schema) (rules : Option ArrayRules) (singleForm : Option String)
+  /-- `map:<type>`: string keys (no key schema in j5s text), values of the item schema -/
+  | map (values : Schema) (rules : Option MapRules) (singleForm : Option String)
   deriving DecidableEq, Repr, Inhabited
 
 def FieldSchema.item : FieldSchema → Schema
   | .single s => s
   | .array s _ _ => s
+  | .map s _ _ => s
 
 def FieldSchema.isArray : FieldSchema → Bool
-  | .single _ => false
   | .array _ _ _ => true
+  | _ => false
+
+def FieldSchema.isMap : FieldSchema → Bool
+  | .map _ _ _ => true
+  | _ => false
 
 /-- `schema.ObjectProperty` (+ the proto field number the walker assigns). -/
 structure Property where
@@ -192,9 +205,17 @@ structure RepeatedC where
   items : Option ItemC := none
   deriving DecidableEq, Repr, Inhabited
 
+/-- `buf.validate.MapRules` (keys are never constrained by the compiler) -/
+structure MapC where
+  minPairs : Option Nat := none
+  maxPairs : Option Nat := none
+  values : Option ItemC := none
+  deriving DecidableEq, Repr, Inhabited
+
 inductive TypeC where
   | item (c : ItemC)
   | repeated (r : RepeatedC)
+  | map (m : MapC)
   deriving DecidableEq, Repr, Inhabited
 
 structure FieldC where
@@ -254,6 +275,7 @@ inductive J5Ext where
   | object (flatten : Bool)
   | key (pattern : Option String)
   | array (singleForm : Option String)
+  | map (singleForm : Option String)
   | any (onlyDefined : Bool) (types : List String)
   | date (rules : TextBoundRules)
   | decimal (rules : TextBoundRules)
@@ -292,6 +314,9 @@ structure Annot where
   description : String
   kind : ProtoKind
   repeated : Bool
+  /-- `map<string, kind>`: the annotations below are those of the map field itself; of the entry's
+  `value` field only the proto kind and `(j5.ext.v1.key)` are visible to the reader -/
+  isMap : Bool := false
   proto3Optional : Bool
   validate : Option FieldC
   j5 : Option J5Ext
